@@ -12,7 +12,7 @@ import numpy as np
 from common import *
 
 # one physical line: common.run_shards maps coqc's error lines to ENCLOSURE cases assuming a one-line header
-IMPORTS = ("From CV Require Import Base.Cmp Base.Ext Model.C02_MH Model.C02_Tune Proofs.C02_Balance. "
+IMPORTS = ("From CV Require Import Base.Cmp Base.Ext Model.C02_MH Model.C02_Tune Proofs.C02_Balance Proofs.C02_Measure. "
            "From Coq Require Import QArith Reals Lra. From Interval Require Import Tactic.")
 RULE = ("one case = one transition (or one 3-step chain) of one sampler site (10 sites: 5 kernels x 2 interfaces) on one target "
         "(quadratic / quartic user-defined log-densities with optional NaN/-inf/+inf region, cuqi Gaussian posteriors with integer "
@@ -394,6 +394,8 @@ class Driver:
                         own = hist_[update_count * skip_len:(update_count + 1) * skip_len] if drv.kind == "cw" else hist_[-skip_len:]
                         rec = {"kind": drv.kind, "k": int(update_count) + 1, "dim": drv.T.dim,
                                "window": own, "window_in_sampler": [[int(b) for b in np.ravel(w)] for w in win],
+                               "T": int(skip_len), "i": int(update_count),
+                               "acc_in_sampler": [[int(b) for b in np.ravel(w)] for w in self._acc],
                                "temp0": np.array(getattr(self, tname), dtype=float).reshape(-1).tolist()}
                     r = super().tune(skip_len, update_count)
                     after = drv._snapshot(self)
@@ -1426,6 +1428,7 @@ def run(ctx):
     oc, trecs = option_cases(ctx)
     cases += oc
     cases += tune_cases(ctx, tune_recs + trecs)
+    cases += tune_twin_cases(ctx)
     cases += legacy_adapt_cases(ctx)
     cases += chain_cases(ctx)
     cases += lattice_cases(ctx)
@@ -1728,6 +1731,82 @@ def tune_cases(ctx, recs):
                     "component": c, "accepted": a, "window": n}
             out.append(Case(expr=expr, meta=meta, cell="%s/tune" % site, kind="ENCLOSURE", tac=TUNE_TAC, impl_fail=fail,
                             signature=(SITES[site]["sig"].rsplit(".", 1)[0] + ".tune|scale-out-of-bounds") if fail else ""))
+            if r.get("acc_in_sampler") is not None and len(r["acc_in_sampler"]) <= 400:
+                # the window the Coq model (win_last / win_slice) selects from the history the sampler holds must be the window of
+                # the harness's own record (a accepted out of n); the history itself must be 0/1 flags (hypothesis `flags` of
+                # C02_tune_call_sound)
+                hist = [w[c] if len(w) > c else w[0] for w in r["acc_in_sampler"]]
+                wfail = None
+                if any(b not in (0, 1) for b in hist):
+                    wfail = "the acceptance history handed to tune() holds values other than 0/1: %s" % hist[:20]
+                wexpr = "check_window %s %s %s %s %s %s" % (cbool(r["kind"] == "cw"), cnat(r["T"]), cnat(r["i"]),
+                                                          clist([cz(b) for b in hist]), cz(a), cz(n))
+                out.append(Case(expr=wexpr, meta=dict(meta, op="tune_window", T=r["T"], i=r["i"], history=hist),
+                                cell="%s/tune-window" % site, kind="EXACT", impl_fail=wfail,
+                                signature=(SITES[site]["sig"].rsplit(".", 1)[0] + ".tune|history-not-flags") if wfail else ""))
+    return out
+
+
+def tune_twin_cases(ctx):
+    """monotonicity of the adaptation in the acceptance flags (C02_tune_flags_monotone), on the real tune(): two fresh samplers of
+    the same class are handed histories that differ only by some rejected flags turned into accepted ones; the adapted parameter
+    and the scale of the second must not be smaller, and both scales lie in (0,1].  Oracle: the ordering itself (no formula)."""
+    rng = ctx.rng
+    out = []
+    for site in ("E.MH", "E.PCN", "E.CWMH"):
+        kind = SITES[site]["kind"]
+        for rep in range(ctx.n(3, 12)):
+            d = rng.choice([2, 3]) if kind == "cw" else rng.choice([1, 2])
+            T_ = rng.choice([1, 2, 4, 5, 10])
+            i_ = rng.choice([0, 0, 1, 2, 5])
+            n_hist = (i_ + 1) * T_
+            lo = [[1] * (d if kind == "cw" else 1)] + [[rng.choice([0, 0, 1]) for _ in range(d if kind == "cw" else 1)] for _ in range(n_hist - 1)]
+            hi = [[b if rng.random() < 0.5 else 1 for b in w] for w in lo]
+            hi[0] = list(lo[0])
+            scale0 = [rng.choice([0.5, 0.25, 1.0, 0.125, 0.0625]) for _ in range(d)] if kind == "cw" else rng.choice([0.5, 0.25, 1.0, 0.125])
+            tspec = gen_target(rng, "quad", d, None)
+            res = []
+            for hist in (lo, hi):
+                drv = Driver(site, Tgt(tspec), scale0, [0.0] * d, prior={"mean": [0.0] * d, "cov": 1.0} if kind == "pcn" else None)
+                s_ = drv.s
+                s_._acc = [np.array(w, dtype=float) if kind == "cw" else w[0] for w in hist]
+                n0 = len(drv.tune_log)
+                with _quiet(), np.errstate(all="ignore"):
+                    s_.tune(T_, i_)
+                rec = drv.tune_log[n0] if len(drv.tune_log) > n0 else None
+                res.append((rec, np.array(s_.scale, dtype=float).reshape(-1).tolist()))
+            (r1, s1), (r2, s2) = res
+            fail = None
+            if r1 is None or r2 is None:
+                fail = "tune() was not recorded"
+            else:
+                for c in range(len(r1["temp1"])):
+                    t1, t2 = r1["temp1"][c], r2["temp1"][c]
+                    a1, a2 = s1[c if len(s1) > c else 0], s2[c if len(s2) > c else 0]
+                    if not (t1 <= t2 * (1 + 1e-12) and a1 <= a2 * (1 + 1e-12)):
+                        fail = ("tune(%d, %d) is not monotone in the acceptance flags: component %d, flags %s -> parameter %r scale %r, "
+                                "flags %s (pointwise >=) -> parameter %r scale %r" % (T_, i_, c, [w[c if len(w) > c else 0] for w in lo], t1, a1,
+                                                                                      [w[c if len(w) > c else 0] for w in hi], t2, a2))
+                        break
+                    if not (0 < a1 <= 1 and 0 < a2 <= 1):
+                        fail = "after tune() a scale is outside (0, 1]: %r / %r" % (a1, a2)
+                        break
+            sig = (SITES[site]["sig"].rsplit(".", 1)[0] + ".tune|not-monotone-in-acceptance") if fail else ""
+            if r1 is None or r2 is None:
+                out.append(Case(expr="true", meta={"op": "tune_twin", "site": site}, cell="%s/tune-monotone-twin" % site, kind="DECISION",
+                                impl_fail=fail, signature=sig))
+                continue
+            first = True
+            for tag, rr in (("lo", r1), ("hi", r2)):
+                for cse in tune_cases(ctx, [(site, rr)]):
+                    cse.cell = "%s/tune-monotone-twin" % site if cse.kind == "ENCLOSURE" else "%s/tune-window" % site
+                    cse.meta = _jsonable(dict(cse.meta, twin=tag, T=T_, i=i_, lo=lo, hi=hi, scale0=scale0))
+                    if first and fail:
+                        cse.impl_fail, cse.signature = fail, sig
+                    first = False
+                    cse.key = ""
+                    cse.__post_init__()
+                    out.append(cse)
     return out
 
 
@@ -2041,28 +2120,47 @@ def lattice_cases(ctx):
     out = []
     for site in ("E.MH", "L.MH", "E.CWMH", "L.CWMH"):
         kind = SITES[site]["kind"]
-        for rep in range(ctx.n(1, 4)):
+        nrep = ctx.n(1, 4)
+        for rep in range(nrep + ctx.n(1, 2)):
+            holes = rep >= nrep         # targets that VANISH on part of the lattice (log-density -inf inside the state space): the
+            #                             kernel of C02_invariance_countable / C02_detailed_balance_nonneg with alpha0 = acc0
             if kind == "mh":
                 n, K = 5, 12
                 W = [rng.choice([1, 2, 3, 4, 6, 12]) for _ in range(n)]
+                if holes:
+                    for z_ in rng.sample(range(n), rng.choice([1, 2, 3])):
+                        W[z_] = 0
             else:
                 n, K = 3, 6
                 W = [[rng.choice([1, 2, 3, 6]) for _ in range(n)] for _ in range(n)]
-            kern, err, accfrac, comp = lattice_kernel(site, W, K)
+                if holes:
+                    for z_ in rng.sample(range(n * n), rng.choice([1, 2, 3])):
+                        W[z_ // n][z_ % n] = 0
+            with np.errstate(all="ignore"):
+                kern, err, accfrac, comp = lattice_kernel(site, W, K)
             fail = err if kern is None else lattice_verdict(W, kern, comp)
-            # tie to the theorem's alpha: observed acceptance fractions == qmin 1 (pi_j/pi_i) (1-d sites)
+            # tie to the theorem's alpha: observed acceptance fractions == qmin 1 (pi_j/pi_i) (1-d sites); with zero-density states
+            # alpha0 (= acc0, C02_alpha0_is_acc0): 1 out of a zero-density state into the support, 0 into a zero-density state; pairs
+            # of two zero-density states are excluded (the guarded code rejects, the flow is zero either way)
             if kind == "mh" and accfrac is not None:
-                pairs = sorted(k_ for k_ in accfrac if 0 <= k_[1] < len(W))
+                pairs = sorted(k_ for k_ in accfrac if 0 <= k_[1] < len(W) and not (W[k_[0]] == 0 and W[k_[1]] == 0))
                 outside = [k_ for k_ in accfrac if not (0 <= k_[1] < len(W))]
                 piq = "(fun i => nth i %s 1%%Q)" % cqvec(W)
                 expr = "ql_eqb %s %s && ql_eqb %s %s" % (
-                    clist(["(alpha nat %s (fun _ _ => (1 # 4)%%Q) %s %s)" % (piq, cnat(i), cnat(j)) for i, j in pairs]),
+                    clist(["(%s nat %s (fun _ _ => (1 # 4)%%Q) %s %s)" % ("alpha0" if holes else "alpha", piq, cnat(i), cnat(j)) for i, j in pairs]),
                     cqvec([accfrac[k_] for k_ in pairs]),
                     cqvec([accfrac[k_] for k_ in outside]), cqvec([0] * len(outside)))
+                if holes and fail is None:
+                    for (i, j) in pairs:
+                        want = Fraction(1) if W[i] == 0 else min(Fraction(1), Fraction(W[j], W[i]))
+                        if accfrac[(i, j)] != want:
+                            fail = ("lattice weights %s: the move %d -> %d is accepted for a fraction %s of the uniform grid, the MH probability is %s"
+                                    % (W, i, j, accfrac[(i, j)], want))
+                            break
             else:
                 expr = "true"
             meta = {"op": "lattice", "site": site, "W": W, "K": K}
-            out.append(Case(expr=expr, meta=meta, cell="%s/lattice" % site, kind="EXACT", impl_fail=fail,
+            out.append(Case(expr=expr, meta=meta, cell="%s/lattice%s" % (site, "+zero-density-states" if holes else ""), kind="EXACT", impl_fail=fail,
                             signature=(SITES[site]["sig"] + "|invariance") if fail else ""))
     return out
 
@@ -2195,8 +2293,11 @@ def oracle(ctx, meta):
     if m.get("op") == "chain":
         return None
     if m.get("op") == "lattice":
-        kern, err, _, comp = lattice_kernel(m["site"], m["W"], m["K"])
+        with np.errstate(all="ignore"):
+            kern, err, _, comp = lattice_kernel(m["site"], m["W"], m["K"])
         return err if kern is None else lattice_verdict(m["W"], kern, comp)
+    if m.get("op") in ("tune", "tune_window", "tune_twin", "legacy_adapt"):
+        return None             # the oracle verdict of these cases (scale in (0,1], 0/1 history, monotone twin) is set when they are built
     c, _ = build_case(ctx, _fix_c(_unjson(m)))
     return c.impl_fail
 
@@ -2215,7 +2316,8 @@ def replay(ctx, meta):
     m = meta.get("meta", meta)
     print(json.dumps({k: v for k, v in meta.items() if k != "meta"}, indent=1)[:3000])
     if m.get("op") == "lattice":
-        kern, err, accfrac, comp = lattice_kernel(m["site"], m["W"], m["K"])
+        with np.errstate(all="ignore"):
+            kern, err, accfrac, comp = lattice_kernel(m["site"], m["W"], m["K"])
         print("site", m["site"], "weights", m["W"], "uniform grid", m["K"])
         if kern is None:
             print("implementation:", err)
@@ -2227,7 +2329,7 @@ def replay(ctx, meta):
             print("  sum_x pi(x) K(x,%s) = %s   pi(%s) = %s" % (y, sum(pi[x] * kern[x].get(y, F0) for x in kern), y, pi[y]))
         print("oracle verdict:", lattice_verdict(m["W"], kern, comp) or "pi K = pi and every coordinate kernel is reversible")
         return 0
-    if m.get("op") == "chain" or "site" not in m:
+    if m.get("op") in ("chain", "tune", "tune_window", "tune_twin", "legacy_adapt") or "site" not in m:
         print(json.dumps(m, indent=1)[:4000])
         return 0
     c, o = build_case(ctx, _fix_c(_unjson(m)))
